@@ -13,6 +13,7 @@ import (
 	"fmt"
 	"io"
 	"strings"
+	"sync"
 
 	"cuelabs.dev/go/oci/ociregistry"
 )
@@ -199,6 +200,10 @@ type Env struct {
 	// Scribble makes Exec overwrite every buffer it handed to the registry once the call
 	// has returned (only safe when no transport goroutine may still be reading it).
 	Scribble bool
+	// NoWSize suppresses the Size() probes after writer operations (they are not atomic
+	// with the operation, so under concurrency they would describe another instant).
+	NoWSize bool
+	mu      sync.Mutex
 }
 
 func NewEnv(reg ociregistry.Interface) *Env {
@@ -266,10 +271,19 @@ func DescItem(d ociregistry.Descriptor) string {
 }
 
 func (e *Env) writer(h int) (ociregistry.BlobWriter, *Outcome) {
+	e.mu.Lock()
+	defer e.mu.Unlock()
 	if h < 0 || h >= len(e.Writers) || e.Writers[h] == nil {
 		return nil, fail(fmt.Errorf("HARNESS: no writer handle %d", h))
 	}
 	return e.Writers[h], nil
+}
+
+func (e *Env) wsize(w ociregistry.BlobWriter) int64 {
+	if e.NoWSize {
+		return -1
+	}
+	return w.Size()
 }
 
 func (e *Env) newWriter(w ociregistry.BlobWriter, err error) *Outcome {
@@ -279,9 +293,12 @@ func (e *Env) newWriter(w ociregistry.BlobWriter, err error) *Outcome {
 	if w == nil {
 		return fail(errors.New("HARNESS: nil writer with nil error"))
 	}
+	e.mu.Lock()
 	e.Writers = append(e.Writers, w)
 	e.IDs = append(e.IDs, w.ID())
-	return &Outcome{OK: true, Handle: len(e.Writers) - 1, WSize: w.Size()}
+	h := len(e.Writers) - 1
+	e.mu.Unlock()
+	return &Outcome{OK: true, Handle: h, WSize: e.wsize(w)}
 }
 
 // Exec applies op to the registry and returns what was observed.
@@ -328,10 +345,13 @@ func (e *Env) Exec(op *Op) *Outcome {
 	case "PushBlobChunkedResume":
 		id := op.IDLit
 		if id == "" {
+			e.mu.Lock()
 			if op.H < 0 || op.H >= len(e.IDs) {
+				e.mu.Unlock()
 				return fail(fmt.Errorf("HARNESS: no handle %d", op.H))
 			}
 			id = e.IDs[op.H]
+			e.mu.Unlock()
 		}
 		return e.newWriter(r.PushBlobChunkedResume(ctx, op.Repo, id, op.Offset, op.Hint))
 	case "W.Write":
@@ -345,10 +365,10 @@ func (e *Env) Exec(op *Op) *Outcome {
 		if err != nil {
 			o := fail(err)
 			o.N = n
-			o.WSize = w.Size()
+			o.WSize = e.wsize(w)
 			return o
 		}
-		return &Outcome{OK: true, N: n, WSize: w.Size()}
+		return &Outcome{OK: true, N: n, WSize: e.wsize(w)}
 	case "W.Close":
 		w, bad := e.writer(op.H)
 		if bad != nil {
@@ -357,8 +377,10 @@ func (e *Env) Exec(op *Op) *Outcome {
 		if err := w.Close(); err != nil {
 			return fail(err)
 		}
+		e.mu.Lock()
 		e.IDs[op.H] = w.ID()
-		return &Outcome{OK: true, WSize: w.Size()}
+		e.mu.Unlock()
+		return &Outcome{OK: true, WSize: e.wsize(w)}
 	case "W.Cancel":
 		w, bad := e.writer(op.H)
 		if bad != nil {
